@@ -1,22 +1,28 @@
 /-
-  C05 — the parsed VALUE of every well-formed literal (scan.go: `parseNumber`, `parse`).
+  C05 — the parsed VALUE of every well-formed literal (scan.go: `parseNumber`, `parse`), and the headline of
+  C05: for every byte string shorter than the bound, `parse` = specification.
 
-  All theorems are about the generated definitions `Gen.parseNumber` / `Gen.parse`, for every input
-  of at most `10^9 − 6216` bytes (see `parseNumber_value` for why a bound of this order is necessary) and a
-  valid default rounding mode `m`.  None of them assumes that `reduce128` returns: for the one call that
-  `parseNumber` makes this follows from `reduce128_correct`.
+  All theorems are about the generated definitions `Gen.parseNumber` / `Gen.parse`, for every input of at most
+  `2^58 − 6216` bytes (in particular every `d.size < 2^57`) and a valid default rounding mode `m`.  No hypothesis
+  about `reduce128`: that the one call `parseNumber` makes returns is `D128.Proofs.Total.reduce128_total`, and what
+  it returns is `reduce128_correct`.
 
   * `Props.C05.parseNumber_value`   an accepted numeral with literal value `n·10^sc` (`Spec.readNumber`): `parseNumber`
                                     returns the Decimal denoting `Spec.literalValue m neg n sc` — zero for `n = 0`,
                                     otherwise `Spec.flushOrRoundS m neg n sc` — and `parseNumberRangeError`
                                     exactly when that value is infinite, `nil` otherwise
+  * `Props.C05.parseNumber_value_bound_necessary`   a length bound is necessary (no real input): on
+                                    `"0." ++ 2^58 zeros ++ "1e2882303761517117440"` the specification demands `±Inf`
+                                    and the range error but `parseNumber` returns a finite value and `nil`
   * `Props.C05.parseNumber_spec`    `parseNumber` = specification on every input (rejected ones included)
   * `Props.C05.parse_value`         the same through `parse` (sign, separators; names are not numerals)
-  * `Props.C05.parse_spec`          `parse` = `Spec.readLiteral` + `Spec.literalValue` on every input:
-                                    syntax error / ±Inf / NaN / numeral value
+  * `Props.C05.parse_spec`          **headline** `parse` = `Spec.readLiteral` + `Spec.literalValue` on every input:
+                                    syntax error / ±Inf / NaN / correctly rounded value + range error
+  * `Props.C05.parse_spec_of_lt`    the same for `d.size < 2^57`
 -/
 import D128.Props.C05
 import D128.Proofs.ParseLongTop
+import D128.Proofs.ParseLongBound
 
 namespace Props.C05
 
@@ -33,13 +39,12 @@ local notation "𝔳[" d "]" => Spec.interp (Gen.Decimal.lo d) (Gen.Decimal.hi d
       (`Spec.flushOrRoundS`: a signed zero below `10^-6177`, `±Inf` beyond the largest finite Decimal), and
     * the error `parseNumberRangeError` exactly when that value is `±Inf`, `nil` otherwise.
 
-    The length bound: the written exponent saturates at ten digits ("any exponent this large is out of range
-    whatever the significand is"), which is only true when the significand has fewer than about `10^9`
-    digits: `"0." ++ 10^9 zeros ++ "1e10000000000"` denotes `10^(9·10^9 − 1)` (`+Inf`, range error) but the
-    saturated exponent `10^9` cancels against the `10^9 + 1` fraction digits and `0.1` is returned.
-    (Beyond `2^63 − 10^10` digits the `int` subtraction `exp -= nfrac` can also wrap.) -/
+    The length bound: the written exponent saturates at `2^58` ("any exponent this large is out of range
+    whatever the significand is"), which is true as long as the significand has fewer than `2^58 − 6215` digits;
+    see `parseNumber_value_bound_necessary`.  (Within the bound the `int` arithmetic `exp -= nfrac` cannot wrap:
+    `exp ≤ 10·2^58 + 9` and `|nfrac| ≤ len d`.) -/
 theorem parseNumber_value (g : Globals) (d : Go.Bytes) (neg sep : Bool) (m : Spec.Mode)
-    (hm : Spec.Mode.ofNat? g.DefaultRoundingMode.toNat = some m) (hsz : d.size + 6216 ≤ 10 ^ 9)
+    (hm : Spec.Mode.ofNat? g.DefaultRoundingMode.toNat = some m) (hsz : d.size + 6216 ≤ 2 ^ 58)
     (n : Nat) (sc : Int) (h : Spec.readNumber sep (chars d) = some (n, sc)) :
     ∃ v e, Gen.parseNumber g d neg sep = .ok (v, e) ∧
       (𝔳[v]).same (Spec.literalValue m neg n sc).1 = true ∧
@@ -56,10 +61,24 @@ example :=
   parseNumber_value ⟨0⟩ exNumeral false true .nearestEven rfl (by decide)
     1234567890123456789012345678901234550000000000000000000001 (-57) (by decide)
 
+/-- `parseNumber_value` does not hold without a length bound of the order of `2^58` (no real input is that long):
+    there is an accepted numeral of `2^58 + 23` bytes — `"0." ++ 2^58 zeros ++ "1e2882303761517117440"`, the literal
+    `1 · 10^(10·2^58 − 2^58 − 1)` — for which the specification demands `±Inf` and the range error (every
+    rounding mode), but `parseNumber` returns a finite Decimal and `nil`: the written exponent saturates at
+    `2^58` and cancels against the `2^58 + 1` fraction digits.  (With the earlier saturation bound `10^9` this was
+    a real defect: `Parse` of the 1 GB input `"0." ++ 10^9 zeros ++ "1e10000000000"` returned `0.1, nil`.) -/
+theorem parseNumber_value_bound_necessary (g : Globals) (neg sep : Bool) (m : Spec.Mode)
+    (hm : Spec.Mode.ofNat? g.DefaultRoundingMode.toNat = some m) :
+    ∃ d : Go.Bytes, d.size = 2 ^ 58 + 23 ∧
+      ∃ (n : Nat) (sc : Int), Spec.readNumber sep (chars d) = some (n, sc) ∧
+        Spec.literalValue m neg n sc = (.inf neg, true) ∧
+        ∃ v, Gen.parseNumber g d neg sep = .ok (v, Go.Err.nil) ∧ (𝔳[v]).isInf = false :=
+  ParseLong.parseNumber_value_bound_necessary g neg sep m hm
+
 /-- **C05.2 + C05.5** `parseNumber` against the specification on every input: a syntax error (with the zero
     value `Decimal{}`) exactly on the inputs `Spec.readNumber` rejects, the literal value otherwise. -/
 theorem parseNumber_spec (g : Globals) (d : Go.Bytes) (neg sep : Bool) (m : Spec.Mode)
-    (hm : Spec.Mode.ofNat? g.DefaultRoundingMode.toNat = some m) (hsz : d.size + 6216 ≤ 10 ^ 9) :
+    (hm : Spec.Mode.ofNat? g.DefaultRoundingMode.toNat = some m) (hsz : d.size + 6216 ≤ 2 ^ 58) :
     match Spec.readNumber sep (chars d) with
     | none => Gen.parseNumber g d neg sep = .ok ((default : Gen.Decimal), Go.Err.parseNumberSyntaxError)
     | some (n, sc) =>
@@ -67,14 +86,14 @@ theorem parseNumber_spec (g : Globals) (d : Go.Bytes) (neg sep : Bool) (m : Spec
         (𝔳[v]).same (Spec.literalValue m neg n sc).1 = true ∧
         e = (if (Spec.literalValue m neg n sc).2 then Go.Err.parseNumberRangeError else Go.Err.nil) := by
   cases h : Spec.readNumber sep (chars d) with
-  | none => exact ParseLong.parseNumber_reject' g d neg sep m hm hsz h
+  | none => exact ParseLong.parseNumber_reject' g d neg sep (by omega) h
   | some v =>
     obtain ⟨n, sc⟩ := v
     exact parseNumber_value g d neg sep m hm hsz n sc h
 
 /-- **C05.5b** the value through `parse`: an optionally signed numeral (separators allowed). -/
 theorem parse_value (g : Globals) (d : Go.Bytes) (op : UInt64) (m : Spec.Mode)
-    (hm : Spec.Mode.ofNat? g.DefaultRoundingMode.toNat = some m) (hsz : d.size + 6216 ≤ 10 ^ 9)
+    (hm : Spec.Mode.ofNat? g.DefaultRoundingMode.toNat = some m) (hsz : d.size + 6216 ≤ 2 ^ 58)
     (neg : Bool) (n : Nat) (sc : Int)
     (h : Spec.readLiteral true true (chars d) = some (.num neg n sc)) :
     ∃ v e, Gen.parse g d op = .ok (v, e) ∧
@@ -88,10 +107,10 @@ example :=
     .awayFromZero rfl (by decide) true 1234567890123456789012345678901234550000000000000000000001 (-57)
     (by decide)
 
-/-- **C05** `parse` = specification, on every input of at most `10^9 − 6216` bytes: what `Spec.readLiteral`
+/-- **C05 (headline)** `parse` = specification, on every input of at most `2^58 − 6216` bytes: what `Spec.readLiteral`
     (the documented syntax, separators and names allowed) says about the input determines the result. -/
 theorem parse_spec (g : Globals) (d : Go.Bytes) (op : UInt64) (m : Spec.Mode)
-    (hm : Spec.Mode.ofNat? g.DefaultRoundingMode.toNat = some m) (hsz : d.size + 6216 ≤ 10 ^ 9) :
+    (hm : Spec.Mode.ofNat? g.DefaultRoundingMode.toNat = some m) (hsz : d.size + 6216 ≤ 2 ^ 58) :
     match Spec.readLiteral true true (chars d) with
     | none => Gen.parse g d op = .ok ((default : Gen.Decimal), Go.Err.parseSyntaxError)
     | some (.inf neg) => Gen.parse g d op = .ok (Gen.inf neg, Go.Err.nil)
@@ -105,11 +124,24 @@ theorem parse_spec (g : Globals) (d : Go.Bytes) (op : UInt64) (m : Spec.Mode)
   | none =>
     show Gen.parse g d op = _
     rw [Parse.parse_eq g d op hsz']
-    exact ParseLong.parseM_reject g op d.toList m hm (by simpa using hsz) h
+    exact ParseLong.parseM_reject g op d.toList (by simpa using hsz') h
   | some l =>
     cases l with
     | inf neg => exact (parse_names g d op hsz').1 neg h
     | nan sg => exact (parse_names g d op hsz').2 sg h
     | num neg n sc => exact parse_value g d op m hm hsz neg n sc h
+
+/-- **C05 (headline)** for every byte string shorter than `2^57`. -/
+theorem parse_spec_of_lt (g : Globals) (d : Go.Bytes) (op : UInt64) (m : Spec.Mode)
+    (hm : Spec.Mode.ofNat? g.DefaultRoundingMode.toNat = some m) (hsz : d.size < 2 ^ 57) :
+    match Spec.readLiteral true true (chars d) with
+    | none => Gen.parse g d op = .ok ((default : Gen.Decimal), Go.Err.parseSyntaxError)
+    | some (.inf neg) => Gen.parse g d op = .ok (Gen.inf neg, Go.Err.nil)
+    | some (.nan _) => Gen.parse g d op = .ok (Gen.nan op 0 0, Go.Err.nil)
+    | some (.num neg n sc) =>
+      ∃ v e, Gen.parse g d op = .ok (v, e) ∧
+        (𝔳[v]).same (Spec.literalValue m neg n sc).1 = true ∧
+        e = (if (Spec.literalValue m neg n sc).2 then Go.Err.parseRangeError else Go.Err.nil) :=
+  parse_spec g d op m hm (by omega)
 
 end Props.C05
